@@ -141,6 +141,11 @@ func c29GetOracle(ds *rbDiskSession, spec *rbSpec, s time.Time, d time.Duration,
 				w.OptTail = append(w.OptTail, r)
 			}
 		}
+		if lastSync < 0 {
+			// no random access point before the start (the recording itself begins without one, or the start precedes
+			// it): everything recorded before the start is "since the last random-access point"
+			lastSync = 0
+		}
 		if lastSync >= 0 {
 			for i := lastSync; i < len(recs) && recs[i].Fed.T.Before(s.Add(-tol)); i++ {
 				if recs[i].Seg >= firstSeg {
@@ -204,6 +209,27 @@ func c29CheckGet(got []rbOutTrack, want []c29GetWant, spec *rbSpec, s time.Time,
 		}
 		// expected sequence = [Lead] + OptHead' + Must + OptTail' where the optional parts are contiguous
 		pos := 0
+		// a track without any sample of the window in the answer: whatever precedes is lead-in only; the statement
+		// bounds it from above (a contiguous run out of the lead-in), nothing has to be decodable
+		if len(ids) > 0 && len(w.Must) == 0 {
+			first := -1
+			for k, r := range w.Lead {
+				if r.Fed.Idx == ids[0] {
+					first = k
+				}
+			}
+			if first >= 0 && first+len(ids) <= len(w.Lead) {
+				okRun := true
+				for i := range ids {
+					if w.Lead[first+i].Fed.Idx != ids[i] || !bytes.Equal(samples[i].Payload, w.Lead[first+i].Payload) {
+						okRun = false
+					}
+				}
+				if okRun {
+					continue
+				}
+			}
+		}
 		// lead-in: all or nothing
 		leadPresent := false
 		if len(w.Lead) > 0 && pos < len(ids) && ids[pos] == w.Lead[0].Fed.Idx {
@@ -690,36 +716,35 @@ func c29RegressRecording(t *testing.T, videoMs, gop, audioMs, audioStartMs int, 
 	return spec, disk, rbNewServer(built.PathConfs())
 }
 
-// video every 20 ms, audio every 40 ms, window = first 300 ms of the recording: the audio sample at +280 ms lies in the
-// window but is written (one unit late) to a part after the one holding the first video sample >= +300 ms.
+// video every 20 ms, audio every 40 ms from +27 ms, window = first 310 ms of the recording: the audio sample at +307 ms
+// lies in the window but is written (one unit late) to a part after the one holding the first video sample >= +310 ms.
 func TestVerifC29RegressTailCut(t *testing.T) {
 	if kit.Known(c29KeyTailCut) {
 		t.Skip("listed as known finding")
 	}
-	spec, disk, srv := c29RegressRecording(t, 20, 5, 40, 0, 0)
+	spec, disk, srv := c29RegressRecording(t, 20, 5, 40, 27, 0)
 	s := disk[0].Segs[0].Start
 	for _, format := range []string{"fmp4", "mp4"} {
-		if err := c29OneGet(srv, disk, spec, s, 300*time.Millisecond, "300ms", format, 0, 1); err != nil {
-			t.Errorf("/get %s start=recording start duration=300ms: %v", format, err)
+		if err := c29OneGet(srv, disk, spec, s, 310*time.Millisecond, "310ms", format, 0, 1); err != nil {
+			t.Errorf("/get %s start=recording start duration=310ms: %v", format, err)
 		}
 	}
 }
 
-// window of 1 ms holding exactly one video sample (+500 ms) and no audio sample (audio at 7, 27, … ms): whether mp4
-// answers 200 or 404 depends on which traf comes last in the part.
+// window of 1 ms holding exactly one video sample (+550 ms) and no audio sample (audio at 7, 27, … ms): whether mp4
+// answers 200 or 404 depends on which traf comes last in the part (here: audio).
 func TestVerifC29RegressMP4EmptyTrack(t *testing.T) {
 	if kit.Known(c29KeyMP4Flush) {
 		t.Skip("listed as known finding")
 	}
-	for _, order := range []uint64{0, ^uint64(0)} {
-		spec, disk, srv := c29RegressRecording(t, 50, 5, 20, 7, order)
-		s := spec.Sessions[0].Start.Add(500 * time.Millisecond)
-		if err := c29OneGet(srv, disk, spec, s, time.Millisecond, "1ms", "mp4", 0, 1); err != nil {
-			t.Errorf("traf order %x: /get mp4 start=+500ms duration=1ms: %v", order, err)
-		}
-		if err := c29OneGet(srv, disk, spec, s, time.Millisecond, "1ms", "fmp4", 0, 1); err != nil {
-			t.Errorf("traf order %x: /get fmp4 start=+500ms duration=1ms: %v", order, err)
-		}
+	// traf order 0 = video first, audio last in every part
+	spec, disk, srv := c29RegressRecording(t, 50, 5, 20, 7, 0)
+	s := spec.Sessions[0].Start.Add(550 * time.Millisecond)
+	if err := c29OneGet(srv, disk, spec, s, time.Millisecond, "1ms", "fmp4", 0, 1); err != nil {
+		t.Errorf("/get fmp4 start=+550ms duration=1ms: %v", err)
+	}
+	if err := c29OneGet(srv, disk, spec, s, time.Millisecond, "1ms", "mp4", 0, 1); err != nil {
+		t.Errorf("/get mp4 start=+550ms duration=1ms (fmp4 serves the video sample): %v", err)
 	}
 }
 
@@ -729,7 +754,7 @@ func TestVerifC29RegressSegmentOverlap(t *testing.T) {
 	if kit.Known(c29KeySegOverlap) {
 		t.Skip("listed as known finding")
 	}
-	spec, disk, srv := c29RegressRecording(t, 50, 3, 40, 7, 0)
+	spec, disk, srv := c29RegressRecording(t, 20, 5, 40, 27, 0)
 	var target *rbRec
 	for i := range disk[0].Tracks[0] {
 		r := &disk[0].Tracks[0][i]
